@@ -21,12 +21,14 @@ callback):
 * global-chain versions that do not need the per-variable half: `mutate_p_global`,
   `refine_step_partial`, `refine_step_partial_of_Inv`, `refine_seq_partial`,
   `cursor_correct_partial`; `new_inv`, `inv_implies_global`, `endsOK_of_inv`
-NOT proved (correspondence only, see design_notes/C11.md): `new_from_ops`, sub-variable sweeps
-(`Varlist` cursors, heap order), `fill_args_at_p_with_hint`, `get_nth_p`.
+* `install_refines`   `new_from_ops` on a strictly increasing op list builds the canonical container
+* `nth_eq_scan`       `get_nth_p(k)` is the `k % n`-th occupied slot
+NOT proved (correspondence only, see design_notes/C11.md): sub-variable sweeps (`Varlist`
+cursors, heap order), `fill_args_at_p_with_hint`.
 EXCLUDED by `WF` (documented witnesses below): ops with a repeated variable, ops without
 variables.
 -/
-import QmcProofs.FastOpsCount
+import QmcProofs.FastOpsNth
 
 namespace Qmc.C11
 open Qmc Qmc.FastOps
@@ -358,21 +360,32 @@ theorem getters_after_history {τ : Type} (nv : Nat) (nb : Option Nat) (ms : Lis
   rw [h2] at g
   exact ⟨g.1, g.2.2.2.2.1, g.2.2.2.2.2.1, g.2.2.1⟩
 
-/-! ## statements NOT proved (kept visible; tied to the real code by correspondence only) -/
+/-! ## bulk install, `get_nth_p` -/
 
 /-- the naive slot array of an op list -/
 def slotsOf (l : List (Nat × Op)) : Slots :=
   l.foldl (fun s po => s.set po.1 (some po.2)) (List.replicate ((l.map (·.1)).foldl max 0 + 1) none)
 
-/-- `FastOps::new_from_ops` on a strictly increasing list of well-formed ops builds the canonical
-container (NOT proved; every `install` line of the correspondence compares all pointers). -/
-def InstallStatement : Prop :=
-  ∀ (nv : Nat) (l : List (Nat × Op)), l ≠ [] → (l.map (·.1)).Pairwise (· < ·) →
-    (∀ x ∈ l, OpOK nv none x.2) → FastOps.newFromOps nv l = canon nv none (slotsOf l)
+/-- `FastOps::new_from_ops` (`clear_and_install_ops`) on a strictly increasing list of well-formed
+ops builds exactly the canonical container of the naive slot array, hence satisfies `Inv`.
+(The Rust `assert!`s the strict increase; an empty list returns the empty container.) -/
+theorem install_refines (nv : Nat) (l : List (Nat × Op)) (hne : l ≠ [])
+    (hsorted : (l.map (·.1)).Pairwise (· < ·)) (hok : ∀ x ∈ l, OpOK nv none x.2) :
+    FastOps.newFromOps nv l = canon nv none (slotsOf l) :=
+  newFromOps_canon nv l hne hsorted hok
 
-/-- `get_nth_p(k)` is the `k % n`-th occupied slot (NOT proved; correspondence token T10). -/
-def NthStatement : Prop :=
-  ∀ (c : FastOps), Inv c → 0 < c.n → ∀ k, (occPositions c.abs)[k % c.n]? = some (c.getNthP k)
+theorem install_empty (nv : Nat) : FastOps.newFromOps nv [] = FastOps.new nv none := rfl
+
+/-- `get_nth_p(k)` is the `k % n`-th occupied slot (counting from 0, in slot order) -/
+theorem nth_eq_scan (c : FastOps) (h : Inv c) (hn : 0 < c.n) (k : Nat) :
+    (occPositions c.abs)[k % c.n]? = some (c.getNthP k) := by
+  obtain ⟨hc, _⟩ := h
+  have hcn : c.n = countOps c.abs := by
+    conv => lhs; rw [hc]
+    rfl
+  have := getNthP_canon c.getNvars c.nbonds c.abs (by rw [← hcn]; exact hn) k
+  rw [← hcn, ← hc] at this
+  exact this
 
 /-! ## non-vacuity and excluded points -/
 
